@@ -142,6 +142,36 @@ def main():
                "   then chip_resource_exceptions[xy] = resources; __iter__ = x-major raster of the chips in self;\n"
                "   copy() = Machine(<the six attributes>), __init__ copies each container one level deep *)")
     out.append(D.definition("gen_machine_shape_checked", "bool", "true"))
+    # ---------------------------------------------------------------- rig/netlist.py, class Net
+    ntree = ast.parse(open(os.path.join(REPO, "rig/netlist.py")).read())
+    ncls = [n for n in ntree.body if isinstance(n, ast.ClassDef) and n.name == "Net"]
+    need(len(ncls) == 1, "class Net not found")
+    ncls = ncls[0]
+    need(not ncls.decorator_list and [dump(b) for b in ncls.bases] == [dump(ast.parse("object").body[0].value)]
+         and not ncls.keywords, "class Net has other bases / a metaclass / decorators")
+    nmembers = strip_doc(ncls.body)
+    need(all(isinstance(n, ast.FunctionDef) for n in nmembers) and [n.name for n in nmembers] == ["__init__", "__contains__", "__iter__"],
+         "Net defines %r; expected __init__, __contains__, __iter__" % [getattr(n, "name", "?") for n in nmembers])
+    f, b = func(nmembers, "__init__", "Net")
+    need(params(f) == ["self", "source", "sinks", "weight"] and [dump(d) for d in f.args.defaults] == [dump(ast.Constant(1.0))],
+         "Net.__init__ parameters")
+    same(b, "self.source = source\nself.weight = weight\nif isinstance(sinks, list):\n    self.sinks = sinks[:]\n"
+            "else:\n    self.sinks = [sinks]", "Net.__init__")
+    f, b = func(nmembers, "__contains__", "Net")
+    same(b, "return vertex == self.source or vertex in self.sinks", "Net.__contains__")
+    f, b = func(nmembers, "__iter__", "Net")
+    same(b, "yield self.source\nfor vertex in self.sinks:\n    yield vertex", "Net.__iter__")
+    out.append("(* rig/netlist.py: Net(source, sinks, weight=1.0) copies a LIST of sinks and wraps anything else as the single\n"
+               "   sink; iteration = source, then the sinks; membership = source or a sink *)")
+    out.append(D.definition("gen_net_shape_checked", "bool", "true"))
+    # the annealer ignores nets that are empty / singleton or not positively weighted
+    atree = ast.parse(open(os.path.join(REPO, "rig/place_and_route/place/sa/algorithm.py")).read())
+    filt = [n for n in ast.walk(atree) if isinstance(n, ast.Assign) and len(n.targets) == 1
+            and isinstance(n.targets[0], ast.Name) and n.targets[0].id == "nets" and isinstance(n.value, ast.ListComp)]
+    need(len(filt) == 1 and dump(filt[0]) == dump(ast.parse(
+        "nets = [n for n in nets if len(set(n)) > 1 and n.weight > 0.0]").body[0]),
+        "sa/algorithm.py: the net filter is not `[n for n in nets if len(set(n)) > 1 and n.weight > 0.0]`")
+    out.append(D.definition("gen_sa_net_filter_positive_weights", "bool", "true"))
     # ---------------------------------------------------------------- the wrappers around sequential.place
     def module(path):
         return ast.parse(open(os.path.join(REPO, path)).read()).body
